@@ -99,15 +99,21 @@ def verdict(desc):
     out.close("ref/normals", normals, ref["nrm"], rtol=1e-10, scale=1.0)
     out.close("ref/mtx", mtx, ref["AIC"], rtol=RT)
     out.close("ref/rhs", rhs, ref["rhs"], rtol=RT, scale=vscale)
-    out.close("ref/circulations", circ, ref["G"], rtol=RT)
-    out.close("ref/horseshoe", hcirc, ref["Gh"], rtol=RT, scale=float(np.max(np.abs(ref["G"]))))
+    # (circulations of a non-lifting case are round-off of O(v c) terms: never judged finer than RT of 1e-6 v c)
+    cref_ = max(float(np.max(np.linalg.norm(m[-1] - m[0], axis=1))) for m in meshes)
+    gscale = max(float(np.max(np.abs(ref["G"]))), 1e-6 * v * cref_)
+    out.close("ref/circulations", circ, ref["G"], rtol=RT, scale=gscale)
+    out.close("ref/horseshoe", hcirc, ref["Gh"], rtol=RT, scale=gscale)
     out.close("ref/force_pts_velocities", fvel, ref["Vloc"], rtol=RT)
-    fscale = max(float(np.max(np.abs(f))) for f in ref["F"])
+    # forces: rho G V b per panel; a non-lifting case leaves round-off of that product with G -> the floor above
+    bmax = float(np.max(np.linalg.norm(bvec, axis=1)))
+    fscale = max(max(float(np.max(np.abs(f))) for f in ref["F"]), rho * 1e-6 * v * cref_ * v * bmax)
     for k, f in enumerate(secf):
         out.close("ref/sec_forces", f, ref["F"][k], rtol=RT, scale=fscale)
     # 3 definition from OAS's own quantities
     Fdef = rho * hcirc[:, None] * np.cross(fvel, bvec)
-    out.close("definition/sec_forces", np.concatenate([f.reshape(-1, 3) for f in secf]), Fdef, rtol=1e-10)
+    out.close("definition/sec_forces", np.concatenate([f.reshape(-1, 3) for f in secf]), Fdef, rtol=1e-10,
+              scale=max(float(np.max(np.abs(Fdef))), fscale * 1e-3))
     # 4 independent tangency with OAS's circulations
     vn = ref_vlm.normal_velocity(ref["lattice"], circ, ref["onset"])
     out.le("tangency", np.max(np.abs(vn)), RT * vscale)
